@@ -1,0 +1,39 @@
+//go:build verif
+
+// Contracts for contract-based deductive verification (checked by /verif/govc).
+// This file is comment-only and compiled only with the build tag "verif".
+
+package balloons
+
+// ---- C04 (balloons): allocMem asks the memory allocator and applies the zone changes of other containers ----------
+// The request constructors of libmem (option closures applied in a loop) are ASSUMED to build a fresh request with
+// the given id; NewNodeMask and getMemoryLimit only compute values.
+//@ assume-contract github.com/containers/nri-plugins/pkg/resmgr/lib/memory.PreservedContainer
+//@   modifies nothing
+//@   ensures fresh(result) && result.id == id
+//@ assume-contract github.com/containers/nri-plugins/pkg/resmgr/lib/memory.ContainerWithTypes
+//@   modifies nothing
+//@   ensures fresh(result) && result.id == id
+//@ effect github.com/containers/nri-plugins/pkg/resmgr/lib/memory.NewNodeMask pure
+//@ effect getMemoryLimit pure
+
+// Either the allocator now holds an assignment for the container and the returned zone is that assignment, or the
+// request failed: then the allocator's assignments are exactly as before, nothing is told to any container and the
+// requested nodes are returned as a fallback. In the successful case every OTHER container whose assignment the
+// allocator changed in this step and that is still cached is told its new zone in the same call.
+//@ func (*balloons).allocMem ints=bv64 tags=C04 standalone
+//@   requires p != nil && p.memAllocator != nil && p.cch != nil && c != nil && libmem.idle(p.memAllocator)
+//@   let A = p.memAllocator
+//@   let me = ctrID(c)
+//@   modifies pinnedMems, comp libmem.Allocator.version, maps map[string]libmem.NodeMask, maps map[string]*libmem.Request, maps map[libmem.NodeMask]*libmem.Zone,
+//@     comp libmem.Request.zone, comp libmem.Request.types, comp libmem.Allocator.journal, comp libmem.Zone.nodes, comp libmem.Zone.types, comp libmem.Zone.capacity, comp libmem.Zone.users,
+//@     comp libmem.journal.updates, comp libmem.journal.reverts
+//@   ensures[C04] (me in A.users && result == A.users[me]) || (dom(A.users) == old(dom(A.users)) && vals(A.users) == old(vals(A.users)) && pinnedMems == old(pinnedMems))
+//@   ensures[C04] forall id string :: id != me && old(id in A.users) && id in A.users && A.users[id] != old(A.users[id]) && cchHas(p.cch, id) ==>
+//@        pinnedMems[cchCtr(p.cch, id)] == A.users[id].MemsetString()
+//@   # the property's own wording: whenever the allocator holds an assignment for the container, the zone handed back is it
+//@   ensures[C04] me in A.users ==> result == A.users[me]
+//@ loop 0 in (*balloons).allocMem at "range updates"
+//@   modifies pinnedMems
+//@   invariant me in A.users && zone == A.users[me]
+//@   invariant forall id string :: seen(id) && cchHas(p.cch, id) ==> ctrID(cchCtr(p.cch, id)) == id && pinnedMems[cchCtr(p.cch, id)] == updates[id].MemsetString()
